@@ -225,24 +225,53 @@ func ruleNUMSHAPE(c *Ctx) []Obligation {
 	// the parser's traversal: the method of funcGen that ranges over f.Params and f.Blocks and registers locals
 	var idx *types.Func
 	var ifd *ast.FuncDecl
+	// (the traversal may be split: indexLocals ranges Params and Blocks, a helper it calls ranges
+	// Insts — the walk below inlines helpers, so only the root has to be found)
+	ainfo := c.pkg(pkgASM).TypesInfo
+	direct := map[*types.Func]map[string]bool{}
+	callees := map[*types.Func][]*types.Func{}
 	c.eachFunc(pkgASM, func(p *packages.Package, fd *ast.FuncDecl, fn *types.Func) {
-		hasParams, hasBlocks, hasInsts := false, false, false
+		direct[fn] = map[string]bool{}
 		ast.Inspect(fd.Body, func(n ast.Node) bool {
-			if rs, ok := n.(*ast.RangeStmt); ok {
-				if se, ok := unparen(rs.X).(*ast.SelectorExpr); ok {
+			switch x := n.(type) {
+			case *ast.RangeStmt:
+				if se, ok := unparen(x.X).(*ast.SelectorExpr); ok {
 					switch se.Sel.Name {
-					case "Params":
-						hasParams = true
-					case "Blocks":
-						hasBlocks = true
-					case "Insts":
-						hasInsts = true
+					case "Params", "Blocks", "Insts":
+						direct[fn][se.Sel.Name] = true
 					}
+				}
+			case *ast.CallExpr:
+				if g := calleeOf(ainfo, x); g != nil && g.Pkg() != nil && g.Pkg().Path() == pkgASM {
+					callees[fn] = append(callees[fn], g)
 				}
 			}
 			return true
 		})
-		if hasParams && hasBlocks && hasInsts {
+	})
+	var reachRanges func(fn *types.Func, depth int, seen map[*types.Func]bool) map[string]bool
+	reachRanges = func(fn *types.Func, depth int, seen map[*types.Func]bool) map[string]bool {
+		out := map[string]bool{}
+		if seen[fn] || depth > 2 {
+			return out
+		}
+		seen[fn] = true
+		for k := range direct[fn] {
+			out[k] = true
+		}
+		for _, g := range callees[fn] {
+			for k := range reachRanges(g, depth+1, seen) {
+				out[k] = true
+			}
+		}
+		return out
+	}
+	c.eachFunc(pkgASM, func(p *packages.Package, fd *ast.FuncDecl, fn *types.Func) {
+		if !direct[fn]["Params"] {
+			return
+		}
+		r := reachRanges(fn, 0, map[*types.Func]bool{})
+		if r["Params"] && r["Blocks"] && r["Insts"] {
 			idx, ifd = fn, fd
 		}
 	})
@@ -291,6 +320,200 @@ func ruleNUMSHAPE(c *Ctx) []Obligation {
 }
 
 // ---------------------------------------------------------------------------
+
+// firstWriteIsIdentPrefix: the first thing a printer writes is `<x.Ident()> = `, possibly under
+// a condition. The printer is followed through helpers of its package — a section method on
+// the same receiver (inst.writeResult(buf)), a function that receives the identifier as an
+// argument (conversionLLString(inst.Ident(), "trunc", …)) or a delegate (return inst.llString(ind))
+// — with parameters bound to the caller's arguments. Recognised spellings of the prefix:
+//
+//	fmt.Fprintf(buf, "%s = …", id)     buf.WriteString(id + " = …")     buf.WriteString(id); buf.WriteString(" = …")
+//
+// and of the condition: `if COND { prefix }` or the guard clause `if NOT-COND { return }` before it.
+func (c *Ctx) firstWriteIsIdentPrefix(fd *ast.FuncDecl, bind map[types.Object]ast.Expr, depth int) (prefix, conditional bool, condText string) {
+	if fd == nil || fd.Body == nil || depth > 3 {
+		return false, false, ""
+	}
+	info := c.declPkg[fd].TypesInfo
+	resolve := func(e ast.Expr) ast.Expr {
+		for i := 0; i < 4; i++ {
+			id, ok := unparen(e).(*ast.Ident)
+			if !ok {
+				break
+			}
+			b, ok := bind[info.ObjectOf(id)]
+			if !ok {
+				break
+			}
+			e = b
+		}
+		return e
+	}
+	isIdent := func(e ast.Expr) bool {
+		return strings.HasSuffix(exprString(unparen(resolve(e))), ".Ident()")
+	}
+	constStr := func(e ast.Expr) (string, bool) {
+		if tv := info.Types[e]; tv.Value != nil && tv.Value.Kind() == constant.String {
+			return constant.StringVal(tv.Value), true
+		}
+		return "", false
+	}
+	writeArg := func(st ast.Stmt) ast.Expr {
+		es, ok := st.(*ast.ExprStmt)
+		if !ok {
+			return nil
+		}
+		call, ok := es.X.(*ast.CallExpr)
+		if !ok || len(call.Args) != 1 {
+			return nil
+		}
+		if se, ok := unparen(call.Fun).(*ast.SelectorExpr); ok && se.Sel.Name == "WriteString" {
+			return call.Args[0]
+		}
+		return nil
+	}
+	prefixAt := func(list []ast.Stmt, i int) int {
+		if es, ok := list[i].(*ast.ExprStmt); ok {
+			if call, ok := es.X.(*ast.CallExpr); ok && len(call.Args) >= 3 {
+				if f := calleeOf(info, call); f != nil && f.Pkg() != nil && f.Pkg().Path() == "fmt" && f.Name() == "Fprintf" {
+					if format, ok := constStr(call.Args[1]); ok && strings.HasPrefix(format, "%s = ") && isIdent(call.Args[2]) {
+						return 1
+					}
+				}
+			}
+		}
+		if a := writeArg(list[i]); a != nil {
+			if be, ok := unparen(a).(*ast.BinaryExpr); ok && be.Op == token.ADD && isIdent(be.X) {
+				if s, ok := constStr(be.Y); ok && strings.HasPrefix(s, " = ") {
+					return 1
+				}
+			}
+			if isIdent(a) && i+1 < len(list) {
+				if b := writeArg(list[i+1]); b != nil {
+					if s, ok := constStr(b); ok && strings.HasPrefix(s, " = ") {
+						return 2
+					}
+				}
+			}
+		}
+		return 0
+	}
+	// helper of the module that this statement delegates output to, with its parameter bindings
+	helperOf := func(e ast.Expr) (*ast.FuncDecl, map[types.Object]ast.Expr) {
+		call, ok := unparen(e).(*ast.CallExpr)
+		if !ok {
+			return nil, nil
+		}
+		callee := calleeOf(info, call)
+		if callee == nil || callee.Pkg() == nil || !c.isLLVM(callee.Pkg().Path()) {
+			return nil, nil
+		}
+		hfd := c.funcDecl(callee)
+		if hfd == nil || hfd.Body == nil || hfd == fd {
+			return nil, nil
+		}
+		// only helpers that can write: they take a builder / writer, or return the text
+		sig := callee.Type().(*types.Signature)
+		writes := false
+		for i := 0; i < sig.Params().Len(); i++ {
+			if strings.Contains(types.TypeString(sig.Params().At(i).Type(), nil), "strings.Builder") || isIOWriter(sig.Params().At(i).Type()) {
+				writes = true
+			}
+		}
+		if sig.Results().Len() == 1 && isPlainString(sig.Results().At(0).Type()) {
+			writes = true
+		}
+		if !writes {
+			return nil, nil
+		}
+		hb := map[types.Object]ast.Expr{}
+		k := 0
+		hi := c.declPkg[hfd].TypesInfo
+		for _, f := range hfd.Type.Params.List {
+			for _, nm := range f.Names {
+				if k < len(call.Args) {
+					hb[hi.Defs[nm]] = resolve(call.Args[k])
+				}
+				k++
+			}
+		}
+		return hfd, hb
+	}
+	list := fd.Body.List
+	pendingGuard := "" // a guard clause `if G { return }` met before the first write
+	for i, st := range list {
+		if n := prefixAt(list, i); n > 0 {
+			if pendingGuard != "" {
+				return true, true, "!(" + pendingGuard + ")"
+			}
+			return true, false, ""
+		}
+		switch x := st.(type) {
+		case *ast.IfStmt:
+			if len(x.Body.List) > 0 && x.Else == nil {
+				if n := prefixAt(x.Body.List, 0); n > 0 && n == len(x.Body.List) {
+					return true, true, exprString(x.Cond)
+				}
+				// the conditional prefix may live in a helper: if C { inst.writeResult(buf) }
+				if len(x.Body.List) == 1 {
+					if es, ok := x.Body.List[0].(*ast.ExprStmt); ok {
+						if hfd, hb := helperOf(es.X); hfd != nil {
+							if p, _, _ := c.firstWriteIsIdentPrefix(hfd, hb, depth+1); p {
+								return true, true, exprString(x.Cond)
+							}
+						}
+					}
+					if r, ok := x.Body.List[0].(*ast.ReturnStmt); ok && len(r.Results) == 0 && pendingGuard == "" {
+						pendingGuard = exprString(x.Cond)
+						continue
+					}
+				}
+			}
+			// any other if that writes ends the search
+			writesHere := false
+			ast.Inspect(x, func(m ast.Node) bool {
+				if call, ok := m.(*ast.CallExpr); ok && isWriteCall(info, call) != nil {
+					writesHere = true
+				}
+				return true
+			})
+			if writesHere {
+				return false, false, ""
+			}
+		case *ast.ExprStmt:
+			if hfd, hb := helperOf(x.X); hfd != nil {
+				p, cond, ct := c.firstWriteIsIdentPrefix(hfd, hb, depth+1)
+				if p {
+					return p, cond, ct
+				}
+				// the helper may write nothing on its first statements (a section that only
+				// declares locals): a helper that writes something else ends the search
+				wr := false
+				ast.Inspect(hfd.Body, func(m ast.Node) bool {
+					if call, ok := m.(*ast.CallExpr); ok && isWriteCall(c.declPkg[hfd].TypesInfo, call) != nil {
+						wr = true
+					}
+					return true
+				})
+				if wr {
+					return false, false, ""
+				}
+				continue
+			}
+			if call, ok := x.X.(*ast.CallExpr); ok && isWriteCall(info, call) != nil {
+				return false, false, ""
+			}
+		case *ast.ReturnStmt:
+			if len(x.Results) == 1 {
+				if hfd, hb := helperOf(x.Results[0]); hfd != nil {
+					return c.firstWriteIsIdentPrefix(hfd, hb, depth+1)
+				}
+			}
+			return false, false, ""
+		}
+	}
+	return false, false, ""
+}
 
 func ruleNUMPREFIX(c *Ctx) []Obligation {
 	var obs []Obligation
@@ -381,24 +604,8 @@ func ruleNUMPREFIX(c *Ctx) []Obligation {
 			}
 			return 0
 		}
-		for i, s := range fd.Body.List {
-			if prefixLen(fd.Body.List, i) > 0 {
-				prefix = true
-				break
-			}
-			if is, ok := s.(*ast.IfStmt); ok && len(is.Body.List) > 0 {
-				if n := prefixLen(is.Body.List, 0); n > 0 && n == len(is.Body.List) {
-					prefix, conditional, condText = true, true, exprString(is.Cond)
-					break
-				}
-			}
-			// stop at the first output statement
-			if es, ok := s.(*ast.ExprStmt); ok {
-				if call, ok := es.X.(*ast.CallExpr); ok && isWriteCall(info, call) != nil {
-					break
-				}
-			}
-		}
+		_ = prefixLen
+		prefix, conditional, condText = c.firstWriteIsIdentPrefix(fd, nil, 0)
 		o := Obligation{Key: typeKey(n) + " result prefix", Pos: c.pos(fd.Pos()), Verdict: OK}
 		switch {
 		case embeds && !prefix:
@@ -443,6 +650,14 @@ func ruleNUMREDERIVE(c *Ctx) []Obligation {
 		o := Obligation{Key: key, Pos: c.pos(sc.call.Pos()), Verdict: OK}
 		var obj types.Object
 		isFieldCounter := false
+		if c.idSpaceOfStore(info, sc.fn, sc.recv) == "metadata" {
+			// metadata IDs are not positions: they are drawn from a generator that skips the
+			// explicit IDs in use, whatever its spelling (closure, method object, inline loop);
+			// MD-ASSIGN holds that generator to account
+			o.Detail = "metadata ID drawn from a generator that skips used IDs (MD-ASSIGN)"
+			obs = append(obs, o)
+			continue
+		}
 		if call, ok := unparen(sc.arg).(*ast.CallExpr); ok && len(call.Args) == 0 {
 			// SetID(nextID()): the ID is drawn from a generator closure directly
 			o.Detail = "ID drawn from " + exprString(call) + " (monotone counter that skips used IDs: MD-ASSIGN)"
@@ -688,6 +903,19 @@ func ruleNUMAUTH(c *Ctx) []Obligation {
 				var walk func(e ast.Expr)
 				walk = func(e ast.Expr) {
 					ast.Inspect(e, func(m ast.Node) bool {
+						// a function or method of the module that advances a counter (alloc.nextID())
+						if call, ok := m.(*ast.CallExpr); ok {
+							if g := calleeOf(info, call); g != nil && g.Pkg() != nil && c.isLLVM(g.Pkg().Path()) {
+								if gfd := c.funcDecl(g); gfd != nil && gfd.Body != nil {
+									ast.Inspect(gfd.Body, func(q ast.Node) bool {
+										if s, ok := q.(*ast.IncDecStmt); ok && s.Tok == token.INC {
+											derived = true
+										}
+										return true
+									})
+								}
+							}
+						}
 						if _, ok := m.(*ast.FuncLit); ok {
 							// a closure that advances a counter (nextID)
 							ast.Inspect(m, func(q ast.Node) bool {
@@ -883,7 +1111,7 @@ func ruleNUMORDER(c *Ctx) []Obligation {
 	obs = append(obs, o)
 	// function level: numbering nests Params, Blocks{Insts, Term}; the body printer ranges Blocks and each block prints Insts then Term
 	fnum := c.funcDecl(c.lookupFunc(pkgIR, "Func.AssignIDs"))
-	blockLL := c.funcDecl(c.lookupFunc(pkgIR, "Block.LLString"))
+	blockLL, blockLLFn := c.printerDecl(c.lookupFunc(pkgIR, "Block.LLString"))
 	o2 := Obligation{Key: "ir.(*Func).AssignIDs order = print order", Verdict: OK}
 	if fnum == nil || blockLL == nil {
 		o2.Verdict, o2.Detail = UNDECIDED, "AssignIDs / Block.LLString not found"
@@ -918,6 +1146,23 @@ func ruleNUMORDER(c *Ctx) []Obligation {
 				}
 				return true
 			})
+			if pi != 0 && pt != 0 && pi < pt {
+				return true
+			}
+			// the printer may be split into section methods (writeInsts(buf); writeTerm(buf)): the
+			// first read of each field, through same-receiver helpers, at the position of the call
+			pi, pt = 0, 0
+			for _, e := range c.subjectFields(blockLLFn, -1) {
+				if e.Derived || e.Panic {
+					continue
+				}
+				if e.Field == "Insts" && (pi == 0 || e.Pos < pi) {
+					pi = e.Pos
+				}
+				if e.Field == "Term" && (pt == 0 || e.Pos < pt) {
+					pt = e.Pos
+				}
+			}
 			return pi != 0 && pt != 0 && pi < pt
 		}
 		switch {
